@@ -154,7 +154,9 @@ WrittenOnceIn(w) == \A i, j \in DOMAIN w : w[i] = w[j] => i = j
 WrittenOnce == WrittenOnceIn(written)
 
 Exists(fs, s, p) == p \in DOMAIN fs \/ p \in Excused(s)
-DanglingIn(fs, lk, s) == {l \in lk : ~Exists(fs, s, l.to)}
+\* Links to files that only another -w run writes are excused (the parts are meant to be combined) - except on the index
+\* page: skool2html lists there only pages that exist when the index is written, so its links are judged strictly
+DanglingIn(fs, lk, s) == {l \in lk : ~(l.to \in DOMAIN fs \/ (l.to \in Excused(s) /\ l.src # s.index))}
 BadFragIn(fs, lk) == {l \in lk : l.frag # "" /\ l.to \in DOMAIN fs /\ l.frag \notin Range(fs[l.to])}
 NoDangling == DanglingIn(files, links, site) = {}
 FragmentExists == BadFragIn(files, links) = {}
